@@ -1266,3 +1266,34 @@ def exists_form(an, f):
                 is_const(cond.body[0].value, True):
             return src(lp.iter), src(lp.target), cond.test
     return None
+
+
+def value_leaves(f, e, through=(), depth=6, _seen=None):
+    """The expressions a value can come from: a local is replaced by each of
+    its bindings, a conditional expression by both arms, and the calls named
+    in `through` (wrappers that hand their first argument on, e.g. islice,
+    list, reversed) by their first argument.  Returns the list of leaf ASTs
+    (None for a binding without a value: loop variable, with ... as)."""
+    _seen = _seen if _seen is not None else set()
+    if depth == 0:
+        return [e]
+    if isinstance(e, ast.IfExp):
+        return value_leaves(f, e.body, through, depth - 1, _seen) + \
+            value_leaves(f, e.orelse, through, depth - 1, _seen)
+    if isinstance(e, ast.Call) and e.args and \
+            (dotted(e.func) or '').rpartition('.')[2] in through:
+        return value_leaves(f, e.args[0], through, depth - 1, _seen)
+    if isinstance(e, ast.Name) and e.id in _seen:
+        return []       # x = wrap(x): nothing new comes from the cycle
+    if isinstance(e, ast.Name) and e.id not in f.params:
+        binds = stores_to(f, e.id)
+        if binds:
+            out = []
+            for _, v in binds:
+                if v is None:
+                    out.append(None)
+                else:
+                    out += value_leaves(f, v, through, depth - 1,
+                                        _seen | {e.id})
+            return out
+    return [e]
